@@ -104,3 +104,11 @@ Theorem si_model_is_source :
   C03.Tie.finalize_src K kzero kadd kmul phi post c st = C03.Model.finalize K kzero kadd kmul phi post c st.
 Proof. exact C03.Tie.history_tie. Qed.
 Print Assumptions si_model_is_source.
+
+(* the work buffers of both computers are allocated once, at construction, as float64: their precision cannot
+   depend on the dtypes of earlier utterances (the models store samples unchanged) *)
+Theorem buffers_have_fixed_dtype :
+  gen.StftK.g_stft_buf_is_f64_alloc_once = true /\
+  gen.SiK.g_si_xbuf_is_f64_alloc_once = true /\ gen.SiK.g_si_ybuf_is_f64_alloc_once = true.
+Proof. exact (conj Stft.Tie.buffer_storage_tie C03.Tie.si_buffer_storage_tie). Qed.
+Print Assumptions buffers_have_fixed_dtype.
